@@ -108,7 +108,15 @@ RULE = ('(a) streams of 0..6 packets (types/lengths at the 1/3/5/9-byte TL-numbe
         'pass), then EOF after a turn / EOF in the same pass as the last bytes / connection reset / another transport '
         'error / left open / app.shutdown(), app.shutdown() also at a random instant (between a feed and the reader\'s '
         'pass, in the middle of a packet whose rest arrives later with more packets behind it), 0..2 receive steps that '
-        'raise. (f) the same for the UDP face: 1..7 datagrams (packets, empty, truncated inside the Type number, two '
+        'raise. (g) hand-built, structurally unusual but digest-consistent signed Interests and Data (pktcommon writers; 133 '
+        'packets: SignatureInfo without SignatureValue, value without info, empty / short / long / wrong value, info or value '
+        'or parameters twice, value before info, no parameters, info without SignatureType, every signature type incl. '
+        'unknown ones with garbage / empty / no value, the digest component in the middle of the name or twice - the '
+        'ParametersSha256DigestComponent RECOMPUTED over the tail as it is, so the packet gets past the digest gate), '
+        'delivered to both front-ends with handlers and pending Interests under the scripted validators (compared with '
+        'the model), the front-end\'s DEFAULT validators and validators that refuse (oracle only); also drawn into the '
+        'random reception stream, 12% of whose cases run under default / refusing validators. '
+        '(f) the same for the UDP face: 1..7 datagrams (packets, empty, truncated inside the Type number, two '
         'packets in one datagram), 0..2 loop iterations after each, connection_lost and / or app.shutdown() at random '
         'instants, raising receive steps. non-trivial = a malformed packet met a state '
         'with a pending Interest or handler, or a stream was cut inside a TL number; distinct = distinct cases')
@@ -642,6 +650,103 @@ def tasks_cases(rng, pool, short, quick):
         yield {'k': 'tasks', 'fe': ('v2', 'v1')[i % 2], 'raises': raises, 'script': sc}
 
 
+def unusual_signed_packets():
+    """[(tag, wire)]: hand-built, structurally UNUSUAL but digest-consistent signed Interests and Data (written with
+    pktcommon's writers, not the library's encoders): every optional element of the signed part absent / empty /
+    duplicated / out of order, unknown and key-based signature types - with the ParametersSha256DigestComponent
+    RECOMPUTED over the tail as it is, so that the packet gets past the digest gate and reaches the validators (a
+    byte mutation of a valid signed Interest never does: it breaks the digest and is dropped one step earlier)."""
+    if 'unusual' in _cache:
+        return _cache['unusual']
+    import pktcommon as K
+    U = K.uri_to_comps
+    out = []
+    si = lambda t=0, **kw: K.w_sig_info(0x2c, dict({'type': t}, **kw))
+    ap = lambda v=b'pp': K.w_tlv(0x24, v)
+    sv = lambda v: K.w_tlv(0x2e, v)
+
+    def interest(name, tail, where='end', extra_digest=False):
+        comps = U(name)
+        dg = K.gen_comp(hashlib.sha256(tail).digest(), 2)
+        if where == 'end':
+            full = comps + [dg]
+        elif where == 'middle':
+            full = comps[:1] + [dg] + comps[1:]
+        else:
+            full = comps
+        if extra_digest:
+            full = full + [dg]
+        return K.w_tlv(5, K.w_name(full) + K.w_uint(0x0a, 0x0b0c0d0e, 4) + K.w_uint(0x0c, 4000) + tail)
+
+    def good(name, a, info):
+        return hashlib.sha256(b''.join(U(name)) + a + info).digest()
+    for name in ('/a/b', '/h/1'):
+        a, i0 = ap(), si()
+        ok = good(name, a, i0)
+        tails = {
+            'info-no-value': a + i0,
+            'value-no-info': a + sv(ok),
+            'empty-value': a + i0 + sv(b''),
+            'valid': a + i0 + sv(ok),
+            'wrong-value': a + i0 + sv(b'\x55' * 32),
+            'short-value': a + i0 + sv(ok[:5]),
+            'long-value': a + i0 + sv(ok + b'\x00'),
+            'info-twice': a + i0 + i0 + sv(ok),
+            'value-twice': a + i0 + sv(ok) + sv(ok),
+            'params-twice': a + a + i0 + sv(ok),
+            'value-before-info': a + sv(ok) + i0,
+            'no-params-info-value': i0 + sv(hashlib.sha256(b''.join(U(name)) + i0).digest()),
+            'no-params-info-only': i0,
+            'no-params-value-only': sv(ok),
+            'empty-params-signed': ap(b'') + i0 + sv(good(name, ap(b''), i0)),
+            'empty-params-info-no-value': ap(b'') + i0,
+            'info-without-type': a + K.w_tlv(0x2c, b'') + sv(ok),
+            'info-without-type-no-value': a + K.w_tlv(0x2c, b''),
+            'info-with-locator-nonce-time': a + si(0, key_name=U('/k/KEY/1'), nonce=7, time=1700000000000)
+                                              + sv(good(name, a, si(0, key_name=U('/k/KEY/1'), nonce=7, time=1700000000000))),
+            'info-with-locator-no-value': a + si(0, key_name=U('/k/KEY/1')),
+            'unknown-element-after-value': a + i0 + sv(ok) + K.w_tlv(0xfd01, b'zz'),
+            'params-only': a,
+        }
+        for t in (1, 3, 4, 5, 200, 255):
+            tails['type%d-garbage-value' % t] = a + si(t) + sv(b'\x30\x06\x02\x01\x01\x02\x01\x01')
+            tails['type%d-no-value' % t] = a + si(t)
+            tails['type%d-empty-value' % t] = a + si(t) + sv(b'')
+        for tag, tail in tails.items():
+            out.append(('sig-int:' + tag, interest(name, tail)))
+        out.append(('sig-int:digest-in-the-middle-no-value', interest(name, a + i0, where='middle')))
+        out.append(('sig-int:digest-in-the-middle-valid', interest(name, a + i0 + sv(ok), where='middle')))
+        out.append(('sig-int:two-digests-no-value', interest(name, a + i0, extra_digest=True)))
+        out.append(('sig-int:no-digest-info-no-value', interest(name, a + i0, where='none')))
+    # Data for the pending Interests: the signed part absent / partial / empty / duplicated / of unknown type
+    dsi = lambda t=0: K.w_sig_info(0x16, {'type': t})
+    dsv = lambda v: K.w_tlv(0x17, v)
+    for name in ('/a/b', '/a/q', '/x'):
+        head = K.w_name(U(name)) + K.w_meta({'content_type': 0, 'freshness_period': 10}) + K.w_tlv(0x15, b'C')
+        dok = hashlib.sha256(head + dsi()).digest()
+        bodies = {
+            'info-no-value': head + dsi(),
+            'value-no-info': head + dsv(dok),
+            'unsigned': head,
+            'empty-value': head + dsi() + dsv(b''),
+            'valid': head + dsi() + dsv(dok),
+            'wrong-value': head + dsi() + dsv(b'\x55' * 32),
+            'info-twice': head + dsi() + dsi() + dsv(dok),
+            'value-twice': head + dsi() + dsv(dok) + dsv(dok),
+            'value-before-info': head + dsv(dok) + dsi(),
+            'info-without-type': head + K.w_tlv(0x16, b'') + dsv(dok),
+            'type200-garbage-value': head + dsi(200) + dsv(b'\x01\x02'),
+            'type1-no-value': head + dsi(1),
+            'type3-empty-value': head + dsi(3) + dsv(b''),
+            'name-only': K.w_name(U(name)),
+            'content-twice': head + K.w_tlv(0x15, b'D') + dsi() + dsv(dok),
+        }
+        for tag, body in bodies.items():
+            out.append(('sig-data:' + tag, K.w_tlv(6, body)))
+    _cache['unusual'] = out
+    return out
+
+
 def utasks_cases(rng, pool, short, quick):
     """(f) the UDP face's task layer: datagrams (packets, empty, truncated inside the Type number, two packets in one
     datagram), single loop iterations, connection_lost, app.shutdown(), receive steps that raise"""
@@ -694,6 +799,18 @@ def cases(rng, tier):
             yield {'k': 'recv', 'fe': fe, 'debug': (i // 6) % 3 == 0, 'pend': busy_pend, 'hand': ['/a', '/h'],
                    'pkts': [{'w': w.hex(), 'typ': None, 'mode': ('await', 'task')[(i // 6 + j) % 2], 'tag': t}
                             for j, (t, w) in enumerate(ol[i:i + 6])]}
+    # structurally unusual but digest-consistent signed Interests / Data, under the scripted validators (compared with
+    # the model), the front-end's DEFAULT validators and validators that refuse (oracle only)
+    un = unusual_signed_packets()
+    for fe in ('v2', 'v1'):
+        for val in (None, 'default', 'fail'):
+            for i in range(0, len(un), 4):
+                c = {'k': 'recv', 'fe': fe, 'debug': (i // 4) % 5 == 0, 'pend': busy_pend, 'hand': ['/a', '/h'],
+                     'pkts': [{'w': w.hex(), 'typ': None, 'mode': ('task', 'await')[(i // 4 + j) % 2], 'tag': t}
+                              for j, (t, w) in enumerate(un[i:i + 4])]}
+                if val:
+                    c['val'] = val
+                yield c
     # a packet that addresses a pending Interest delivered in the very loop turn in which that Interest ends otherwise
     # (the caller cancels its await / its lifetime runs out): reception must not fail either (oracle only)
     for fe in ('v2', 'v1'):
@@ -802,6 +919,8 @@ def cases(rng, tier):
             r = rng.random()
             if r < 0.03:
                 tag, w = 'oddname', O[rng.choice(okinds)]
+            elif r < 0.07:
+                tag, w = rng.choice(un)      # structurally unusual, digest-consistent signed Interest / Data
             elif r < 0.12:
                 tag, w = 'valid', P[rng.choice(kinds)]
             elif r < 0.20:
@@ -821,6 +940,10 @@ def cases(rng, tier):
         c = {'k': 'recv', 'fe': fe, 'pend': pend, 'hand': hand, 'pkts': pkts}
         if rng.random() < 0.35:
             c['debug'] = True       # the application logs at DEBUG level
+        if rng.random() < 0.12:
+            # the front-end's default validators / validators that refuse signed Interests (oracle only: the model
+            # assumes validators that pass)
+            c['val'] = rng.choice(['default', 'default', 'fail'])
         yield c
 
 
@@ -1419,11 +1542,31 @@ def _run_recv(case):
         outcomes, invoked = {}, []
         ids, nodes, node_names = {}, [], []
 
+        val = case.get('val')
+        from ndn.security.validator.digest_validator import sha256_digest_checker as _lib_checker
+
         async def v2_validator(name, sig, ctx):
+            if val == 'fail':
+                return types.ValidResult.FAIL
+            if val == 'default':      # appv2 has no default: what an application writes around the library's checker
+                return types.ValidResult.PASS if await _lib_checker(name, sig) else types.ValidResult.FAIL
             return types.ValidResult.PASS
 
         async def v1_validator(name, sig):
+            return val != 'fail'
+
+        async def v2_data_validator(name, sig, ctx):      # 'fail' refuses Interests only (the finale needs Data to pass)
+            if val == 'default':
+                return types.ValidResult.PASS if await _lib_checker(name, sig) else types.ValidResult.FAIL
+            return types.ValidResult.PASS
+
+        async def v1_pass(name, sig):
             return True
+        # 'default': the legacy front-end's own defaults (app.data_validator / app.int_validator); appv2: the handler is
+        # attached without a validator (signed Interests are dropped), Data goes through the library's digest checker
+        v1_val = None if val == 'default' else v1_validator
+        v1_dval = None if val == 'default' else v1_pass
+        v2_hval = None if val == 'default' else v2_validator
 
         async def waiter(i, coro):
             try:
@@ -1442,9 +1585,9 @@ def _run_recv(case):
 
             async def go(i=i, p=p, name=name):
                 if fe == 'v2':
-                    coro = app.express(name, v2_validator, can_be_prefix=p['cbp'], lifetime=600000, nonce=i + 1)
+                    coro = app.express(name, v2_data_validator, can_be_prefix=p['cbp'], lifetime=600000, nonce=i + 1)
                 else:
-                    coro = app.express_interest(name, validator=v1_validator, can_be_prefix=p['cbp'], lifetime=600000, nonce=i + 1)
+                    coro = app.express_interest(name, validator=v1_dval, can_be_prefix=p['cbp'], lifetime=600000, nonce=i + 1)
                 nm = enc.Name.from_str(p['n'])
                 if nm not in node_names:
                     node_names.append(nm)
@@ -1459,11 +1602,11 @@ def _run_recv(case):
                 def handler(name, app_param, reply, context, h=h):
                     tok = context.get('pit_token')
                     invoked.append([_comps(enc.Name.from_str(h)), None if tok is None else bytes(tok).hex()])
-                app.attach_handler(h, handler, v2_validator)
+                app.attach_handler(h, handler, v2_hval)
             else:
                 def handler1(name, param, app_param, h=h):
                     invoked.append([_comps(enc.Name.from_str(h)), None])
-                app.set_interest_filter(h, handler1, v1_validator)
+                app.set_interest_filter(h, handler1, v1_val)
         pend_desc = []
         for i, p in enumerate(case['pend']):
             full = _comps_of(p['n']) + ('_0120' + hashlib.sha256(d0).hexdigest() if p['dg'] else '')
@@ -1617,6 +1760,8 @@ def model_line(case, impl):
         return 'C06 tasks ' + ' '.join(_tasks_plan(case)[0])
     if k == 'utasks':
         return 'C06 utasks ' + ' '.join(_utasks_plan(case)[0])
+    if case.get('val'):
+        return None          # validators that may refuse are outside the reception model (it assumes they pass): oracle only
     if k == 'turn':
         return None          # same-turn endings are outside the reception model (live pending Interests): oracle only
     groups = {}
@@ -1843,6 +1988,8 @@ def oracle(case, impl):
                 pass
             elif kind == 'data' and _is_prefix(node, name) and o[0] == 'data':
                 pass
+            elif kind == 'data' and _is_prefix(node, name) and case.get('val') and o == ['exc', 'ValidationFailure']:
+                pass          # the Data addresses the Interest and the (default) validator refuses it
             else:
                 return (f"{fe}: packet {n} ({kind}) completed pending Interest {i} with {o[0]} although it does not "
                         f"legitimately address it")
@@ -1979,6 +2126,7 @@ def tags(case, impl):
         t.append(f"turn:{case['fe']}:{case['how']}:{case['what']}")
     elif case['k'] == 'recv':
         t.append(f"{case['fe']}:pend{len(case['pend'])}:hand{len(case['hand'])}")
+        t.append('validators:' + (case.get('val') or 'scripted-pass'))
         t.append('debug-logging:' + ('on' if case.get('debug') else 'off'))
         for pk, rec in zip(case['pkts'], impl['trace']):
             t.append('pkt:' + pk.get('tag', '?').split('+')[0])
